@@ -51,6 +51,11 @@ func runC05(r *an.Run) {
 	// what ends up on disk is the printed tree and nothing else: a file that is not empty when the bytes are
 	// written keeps the tail of the old source behind the new one — code outside every rewritten fragment,
 	// twice
+	// what one match recorded (the header fields of a "for ...", the statements an elision stood for) is not
+	// overwritten while the next candidate is tried: matching writes no memory that outlives the attempt —
+	// nothing rooted at a package-level variable (or a local copy sharing its slices), at the compiled program
+	// or at a slice that was handed in
+	compiledProgramReadOnly(r, "R12-matching-writes-no-shared-memory")
 	if m := buildRunModel(r); m != nil {
 		c07WrittenFileStartsEmpty(r, m)
 		relabel(r, "R4-the-written-file-holds-exactly-the-validated-bytes", "R11-the-written-file-holds-only-the-printed-tree")
@@ -214,8 +219,29 @@ func c05Ownership(r *an.Run) {
 		if an.FuncPkgPath(f) != enginePath {
 			continue
 		}
+		type dstSite struct {
+			call ssa.CallInstruction
+			dst  ssa.Value
+		}
+		var sites []dstSite
 		for _, s := range an.CallsTo(f, rvSet, "(reflect.Value).SetInt", "(reflect.Value).SetString", "(reflect.Value).SetLen") {
-			dst := an.CallArgs(s)[0]
+			sites = append(sites, dstSite{s, an.CallArgs(s)[0]})
+		}
+		// a call to a module helper that assigns by reflection into one of its parameters (setValue(dst, src))
+		// is itself such a write, into the argument bound to that parameter
+		for _, c := range an.Calls(f) {
+			h := an.StaticCallee(c)
+			if h == nil || !an.InModule(h) || h.Blocks == nil {
+				continue
+			}
+			for _, k := range reflectDstParams(h) {
+				if k < len(c.Common().Args) {
+					sites = append(sites, dstSite{c, c.Common().Args[k]})
+				}
+			}
+		}
+		for _, site := range sites {
+			s, dst := site.call, site.dst
 			// every value the destination may be rooted at (all phi edges, all
 			// stores into a local) is one this call allocated
 			fresh, foreign := false, ""
@@ -227,8 +253,14 @@ func c05Ownership(r *an.Run) {
 						continue
 					}
 				case *ssa.Parameter:
-					if x.Name() == "dst" {
-						fresh = true // setValue helper: checked at its call sites
+					isDst := false
+					for _, k := range reflectDstParams(f) {
+						if k < len(f.Params) && f.Params[k] == x {
+							isDst = true
+						}
+					}
+					if isDst {
+						fresh = true // a helper like setValue(dst, src): the argument is checked at each of its call sites
 						continue
 					}
 				}
@@ -457,4 +489,24 @@ func c05NoStaleSlot(r *an.Run) {
 	}
 	r.Count("declaration-editing calls in Replace", n)
 	r.Min("declaration-editing calls in Replace", 1)
+}
+
+// reflectDstParams returns the indexes of the parameters of h that are (a
+// projection of) the destination of a reflect.Value.Set* call in h.
+func reflectDstParams(h *ssa.Function) []int {
+	var out []int
+	seen := map[int]bool{}
+	for _, s := range an.CallsTo(h, rvSet, "(reflect.Value).SetInt", "(reflect.Value).SetString", "(reflect.Value).SetLen") {
+		for _, o := range reflectOrigins(an.CallArgs(s)[0]) {
+			if p, ok := o.(*ssa.Parameter); ok && an.ShortType(p.Type()) == "reflect.Value" {
+				for i, q := range h.Params {
+					if q == p && !seen[i] {
+						seen[i] = true
+						out = append(out, i)
+					}
+				}
+			}
+		}
+	}
+	return out
 }
